@@ -8,6 +8,11 @@ from __future__ import annotations
 from fractions import Fraction
 
 
+def _skey(se):
+    """total order on (symbol, exponent) pairs for symbols of mixed types (str, Fn)"""
+    return (type(se[0]).__name__, repr(se[0]), se[1])
+
+
 def _frac(c):
     if isinstance(c, Fraction):
         return c
@@ -67,7 +72,7 @@ class Poly:
             d = dict(k)
             if d.get(s, 0) == deg:
                 d.pop(s, None)
-                kk = tuple(sorted(d.items()))
+                kk = tuple(sorted(d.items(), key=_skey))
                 out[kk] = out.get(kk, 0) + v
         return Poly(out)
 
@@ -104,7 +109,7 @@ class Poly:
                 m = dict(k1)
                 for s, e in k2:
                     m[s] = m.get(s, 0) + e
-                k = tuple(sorted((s, e) for s, e in m.items() if e))
+                k = tuple(sorted(((s, e) for s, e in m.items() if e), key=_skey))
                 d[k] = d.get(k, 0) + v1 * v2
         return Poly(d)
 
@@ -151,7 +156,7 @@ class Poly:
         return r if r is NotImplemented else not r
 
     def __hash__(self):
-        return hash(tuple(sorted(self.t.items())))
+        return hash(tuple(sorted(self.t.items(), key=repr)))
 
     def subs(self, mapping):
         out = Poly()
@@ -176,8 +181,8 @@ class Poly:
         if not self.t:
             return "0"
         parts = []
-        for k, v in sorted(self.t.items(), key=lambda kv: (len(kv[0]), kv[0])):
-            mon = "*".join(s if e == 1 else "%s^%d" % (s, e) for s, e in k)
+        for k, v in sorted(self.t.items(), key=lambda kv: (len(kv[0]), repr(kv[0]))):
+            mon = "*".join(str(s) if e == 1 else "%s^%d" % (s, e) for s, e in k)
             c = str(v) if v.denominator == 1 else "(%s)" % v
             if mon and v == 1:
                 parts.append(mon)
@@ -294,7 +299,7 @@ def exact_div(n, d):
         mon = {s: e for s, e in rd.items()}
         for s, e in ddict.items():
             mon[s] = mon.get(s, 0) - e
-        mk = tuple(sorted((s, e) for s, e in mon.items() if e))
+        mk = tuple(sorted(((s, e) for s, e in mon.items() if e), key=_skey))
         term = Poly({mk: rc / dc})
         q = q + term
         r = r - term * d
